@@ -391,7 +391,11 @@ Definition g_rsa_request (jwk : json) : option (Z * N) :=
 
 Definition g_mkrsa (X : g_ext) (jwk : json) : option g_rsa_key :=
   match g_rsa_request jwk with
-  | Some (bits, e) => x_rsa X bits e
+  | Some (bits, e) =>
+      match x_rsa X bits e with
+      | Some rk => if (Z.of_N (N.size (rk_n rk)) =? bits)%Z then Some rk else None   (* RSA_bits(key) != bits: refused *)
+      | None => None
+      end
   | None => None
   end.
 
